@@ -20,6 +20,8 @@ func main() {
 		os.Exit(checks.Main(os.Args[2:]))
 	case "selfcheck":
 		os.Exit(checks.SelfCheck(os.Args[2:]))
+	case "waltest":
+		os.Exit(checks.WalTest(os.Args[2:]))
 	case "smoke":
 		os.Exit(checks.Smoke(os.Args[2:]))
 	default:
